@@ -4,6 +4,7 @@ import (
 	"encoding/json"
 	"flag"
 	"fmt"
+	"go/types"
 	"os"
 	"path/filepath"
 	"sort"
@@ -683,13 +684,22 @@ func hasGuardSite(eng *Engine, fn *ssa.Function, guards []*Guard) bool {
 						return true
 					}
 				}
+			case *ssa.MapUpdate:
+				if mt, ok := in.Map.Type().Underlying().(*types.Map); ok {
+					keyName := types.TypeString(mt.Key(), func(*types.Package) string { return "" })
+					for _, g := range guards {
+						if g.Kind == "mapupdate" && (g.Target == "*" || g.Target == keyName) && (g.In == "" || strings.HasSuffix(funcKey(fn), "."+g.In)) {
+							return true
+						}
+					}
+				}
 			case *ssa.Store:
 				if fa, ok := in.Addr.(*ssa.FieldAddr); ok {
 					st := derefType(fa.X.Type())
 					x := &FnExec{eng: eng, q: newQ(ModeInt)}
 					hn, _, _ := x.fieldHeap(st, fa.Field)
 					for _, g := range guards {
-						if g.Kind == "store" && eng.guardMatchesField(g, hn) {
+						if g.Kind == "store" && eng.guardMatchesField(g, hn) && (g.In == "" || strings.HasSuffix(funcKey(fn), "."+g.In)) {
 							return true
 						}
 					}
